@@ -122,7 +122,10 @@ def tcp_frames(seed, ipv, steer):
     base = {"c": 1001, "s": 5001}
     sent = {"c": 0, "s": 0}
     frames = []
-    for sg in segment(c, 0, mss=rng.choice([None, 301, 1460])):
+    # some record headers (or their first byte) travel as segments of their own: frames below the 60-byte Ethernet minimum (padding / trailer)
+    from wire.capture import record_spans
+    cuts = {d: sorted({o for s0, _e, _r in record_spans(c, d) for o in ((s0 + 5,) if rng.random() < 0.4 else (s0 + 1, s0 + 3) if rng.random() < 0.2 else ())}) for d in "cs"}
+    for sg in segment(c, 0, cuts=cuts, mss=rng.choice([None, 301, 1460])):
         s, r = fl.ends(sg.d)
         o = "s" if sg.d == "c" else "c"
         target = rng.choice(steer)
@@ -203,7 +206,7 @@ def _one(job):
     rng = random.Random(seed)
     from wire import l2l4 as _l
     _l.VARIATION.clear()
-    _l.VARIATION.update(rng.choice([{}, {}, {"tcp_opts": 1}, {"ip6_ext": 1}, {"ip4_opts": 1}, {"eth_pad": 1}, {"tcp_opts": 1, "ip6_ext": 1, "ip4_opts": 1}]))
+    _l.VARIATION.update(rng.choice([{}, {}, {"tcp_opts": 1}, {"ip6_ext": 1}, {"ip4_opts": 1}, {"eth_pad": 1}, {"eth_pad": 1}, {"eth_fcs": 1}, {"eth_pad": 1, "eth_fcs": 1}, {"tcp_opts": 1, "ip6_ext": 1, "ip4_opts": 1}]))
     var = dict(_l.VARIATION)
     try:
         return _one2(job, rng, var)
